@@ -1,17 +1,30 @@
 """C07 - build, convert, observe: abstract import scenario (specs/ImportLife.tla)  ->  ImportLifeTrace record.
 
-Abstract architecture = the node sequence of specs/FeatGraph.tla (see harness/archgen.py) extended by
-    arch["two"]  : "no" | "add" | "cat"     two-input forward: tensor 0 = xa + xb  /  cat(xa, xb) on channels
-    arch["ca"]   : channels of xa when two = "cat" (xb has c0 - ca)
-    node["pl"]   : the conv / linear layer is a PIT layer placed BY THE USER (PITConv1d/PITConv2d/PITLinear built by
-                   hand as the PIT README describes, with its own maskers; fold_bn of the layer = fold_bn of PIT(...))
-    node["sn"]   : [] or a list of branch descriptors {"k": int, "bn": bool}: the conv node is a SuperNetModule whose
-                   branch i is conv(kernel k_i) [+ BatchNorm]; all branches have the node's in/out channels and bias
-    node["eps"], node["mom"] : 0|1 codes of the BatchNorm hyper-parameters (1e-5 | 1e-3, 0.1 | 0.05)
-scenario = {"arch", "method": "PIT"|"SN"|"MPS", "mode": "train"|"eval", "fold": bool, "auto": bool, "seed": int}
+Self-contained (own network builder; only names / nothing else shared with harness/archgen.py).
 
-Everything the verdict depends on is LOGGED here and DECIDED by TLC (ImportLifeTrace.tla); the only numeric reduction
-done in Python is  rel = max|y - y_ref| / (1 + max|y_ref|)  in float64, logged as min(floor(rel * 1e12), 2e9).
+arch = {"dim": 1|2, "c0": int, "sp": int, "two": "no"|"add"|"cat", "ca": int, "nodes": [node, ...]}
+    tensor 0 = network input (two-input forward: xa + xb / cat(xa, xb) on channels, xa has `ca` channels),
+    tensor i = output of nodes[i-1], network output = last tensor.
+node (all fields always present after norm_iarch):
+    op    conv | lin | lin3 | relu | drop | pool | flat | add         (lin3 = nn.Linear applied to a 3-D tensor (N, C, L))
+    ins, out
+    conv  k, d, s, dw (depthwise), grp (groups of a non-depthwise conv), bias,
+          pad  "same" (padding='same', stride 1) | "int" (padding = d*(k//2), odd k) | "valid" (no padding) |
+               "causal" (1-D: ConstantPad1d(((k-1)*d, 0)) + padding 0)
+          pm   padding_mode zeros | reflect | replicate | circular   (same / int only)
+    bn    BatchNorm directly after the conv / linear layer; eps, mom (codes), aff (affine), trs (track_running_stats)
+    excl  excluded from the search by name;  reuse = m > 0: the node calls the layer object(s) of node m
+    pl    the layer is a PIT layer placed BY THE USER (PITConv1d/PITConv2d/PITLinear built by hand, README)
+    sn    [] or branch descriptors [{"k","bn"}]: the conv node is a SuperNetModule (branch i = conv(k_i) [+ BN]);
+    sno   {"hard": bool, "gum": bool, "temp": int (temperature*10), "fav": 0 | i}  options the USER configured on the
+          block: hard_softmax, gumbel_softmax, softmax_temperature, non-uniform alpha favouring branch i (0 = uniform)
+    kind  avg | max (pooling)
+scenario = {"arch", "method": "PIT"|"SN"|"MPS", "mode": "train"|"eval", "fold": bool, "auto": bool,
+            "hist": [train|eval|export|summary|cost|forward, ...], "seed": int}
+
+Everything the verdict depends on is LOGGED here and DECIDED by TLC (ImportLifeTrace.tla).  Reductions done in Python:
+rel = max|y - y_ref| / (1 + max|y_ref|) in float64, logged as min(floor(rel*1e12), 2e9); bitwise comparison of state_dict
+entries; comparison of simple attribute values (names of the changed ones are logged).
 plinio is imported lazily (core.use_repo() must have run).
 """
 from __future__ import annotations
@@ -24,36 +37,222 @@ from concurrent.futures import ProcessPoolExecutor
 from typing import Any, Dict, List
 
 from . import tlc
-from .archgen import GrammarNet, input_shape, lname, norm_arch, randomize, shapes
 
 EPS = {0: 1e-5, 1: 1e-3}
 MOM = {0: 0.1, 1: 0.05}
 CAP = 2_000_000_000
+LAYER_OPS = ("conv", "lin", "lin3")
+NODE0 = {"op": "", "ins": [], "out": 0, "k": 1, "d": 1, "s": 1, "dw": False, "grp": 1, "bias": True, "pad": "same",
+         "pm": "zeros", "bn": False, "eps": 0, "mom": 0, "aff": True, "trs": True, "excl": False, "reuse": 0, "pl": False,
+         "sn": [], "sno": {"hard": False, "gum": False, "temp": 10, "fav": 0}, "kind": ""}
+
+
+def lname(i: int) -> str:
+    return f"n{i}"
 
 
 def norm_iarch(a: Dict[str, Any]) -> Dict[str, Any]:
-    b = norm_arch(a)
-    b["two"] = a.get("two", "no")
-    b["ca"] = int(a.get("ca", 0))
-    for n, src in zip(b["nodes"], a["nodes"]):
-        n["pl"] = bool(src.get("pl", False))
-        n["sn"] = [{"k": int(br["k"]), "bn": bool(br["bn"])} for br in src.get("sn", [])]
+    dim = int(a["dim"])
+    nodes = []
+    for src in a["nodes"]:
+        n = copy.deepcopy(NODE0)
+        for k in NODE0:
+            if k in src:
+                n[k] = copy.deepcopy(src[k])
+        n["ins"] = [int(i) for i in n["ins"]]
+        if n["op"] == "conv":
+            if "pad" not in src:         # older scenario files: causal flag / default padding
+                n["pad"] = "causal" if src.get("causal", False) else ("valid" if src.get("valid", False) else
+                                                                      ("same" if (dim == 1 and n["s"] == 1) else "int"))
+            if n["pad"] in ("valid", "causal"):
+                n["pm"] = "zeros"
+        else:
+            n["pad"], n["pm"] = "same", "zeros"
+        n["sn"] = [{"k": int(b["k"]), "bn": bool(b["bn"])} for b in n["sn"]]
+        n["sno"] = {"hard": bool(n["sno"]["hard"]), "gum": bool(n["sno"]["gum"]), "temp": int(n["sno"]["temp"]),
+                    "fav": int(n["sno"]["fav"])}
         if n["sn"]:
-            n["bn"] = False         # BatchNorms of a SuperNet block live inside its branches
-            n["k"] = n["sn"][0]["k"]
-        n["eps"] = int(src.get("eps", 0))
-        n["mom"] = int(src.get("mom", 0))
-        n["kind"] = src.get("kind", "avg") if n["op"] == "pool" else ""
-    return b
+            n.update({"bn": False, "k": n["sn"][0]["k"], "d": 1, "s": 1, "pad": "same" if dim == 1 else "int",
+                      "pm": "zeros", "dw": False, "grp": 1, "pl": False, "excl": False, "reuse": 0})
+        else:
+            n["sno"] = copy.deepcopy(NODE0["sno"])
+        n["kind"] = (src.get("kind") or "avg") if n["op"] == "pool" else ""
+        nodes.append(n)
+    return {"dim": dim, "c0": int(a["c0"]), "sp": int(a["sp"]), "two": a.get("two", "no"), "ca": int(a.get("ca", 0)),
+            "nodes": nodes}
+
+
+def shapes(arch) -> List[Dict[str, Any]]:
+    """(channels, spatial size per axis, flat) of every tensor; tensors stay square in 2-D."""
+    dim = arch["dim"]
+    sh = [{"ch": arch["c0"], "sp": arch["sp"], "flat": False}]
+    for n in arch["nodes"]:
+        i0 = sh[n["ins"][0]]
+        op = n["op"]
+        if op == "conv":
+            if n["pad"] == "valid":
+                sp = (i0["sp"] - n["d"] * (n["k"] - 1) - 1) // n["s"] + 1
+            else:
+                sp = (i0["sp"] - 1) // n["s"] + 1
+            sh.append({"ch": i0["ch"] if n["dw"] else n["out"], "sp": sp, "flat": False})
+        elif op == "lin":
+            sh.append({"ch": n["out"], "sp": 1, "flat": True})
+        elif op == "lin3":
+            sh.append({"ch": i0["ch"], "sp": n["out"], "flat": False})
+        elif op == "pool":
+            sh.append({"ch": i0["ch"], "sp": i0["sp"] // 2, "flat": False})
+        elif op == "flat":
+            sh.append({"ch": i0["ch"] * i0["sp"] ** dim, "sp": 1, "flat": True})
+        elif op in ("relu", "drop", "add"):
+            sh.append(dict(i0))
+        else:
+            raise ValueError(op)
+    return sh
+
+
+def input_shape(arch) -> tuple:
+    return (arch["c0"],) + (arch["sp"],) * arch["dim"]
 
 
 # ------------------------------------------------------------------------------------------ real network
-def _mk_classes():
+_CLS: Dict[str, Any] = {}
+
+
+def _classes():
+    if _CLS:
+        return _CLS
     import torch
     import torch.nn as nn
 
+    class ImportNet(nn.Module):
+        """All layers are leaf modules in a ModuleDict; forward() iterates over the node list in Python, so torch.fx
+        traces exactly the intended graph."""
+
+        def __init__(self, arch: Dict[str, Any], fold: bool):
+            super().__init__()
+            self.arch = arch
+            dim = arch["dim"]
+            sh = shapes(arch)
+            self.layers = nn.ModuleDict()
+            self.plan = []
+            for idx, n in enumerate(arch["nodes"], start=1):
+                op = n["op"]
+                cin = sh[n["ins"][0]]["ch"]
+                nm = lname(idx)
+                names: List[str] = []
+                if op in LAYER_OPS and n["reuse"]:
+                    names = list(self.plan[n["reuse"] - 1][1])
+                elif op == "conv" and n["sn"]:
+                    from plinio.methods.supernet.nn import SuperNetModule
+                    branches = []
+                    for br in n["sn"]:
+                        k = br["k"]
+                        if dim == 1:
+                            c = nn.Conv1d(cin, n["out"], k, padding="same", bias=n["bias"])
+                        else:
+                            c = nn.Conv2d(cin, n["out"], k, padding=k // 2, bias=n["bias"])
+                        if br["bn"]:
+                            bn = (nn.BatchNorm1d if dim == 1 else nn.BatchNorm2d)(n["out"], eps=EPS[n["eps"]],
+                                                                                    momentum=MOM[n["mom"]])
+                            branches.append(nn.Sequential(c, bn))
+                        else:
+                            branches.append(c)
+                    o = n["sno"]
+                    blk = SuperNetModule(branches, gumbel_softmax=o["gum"], hard_softmax=o["hard"])
+                    # what a user does while annealing / after a warm-up: per-block temperature and coefficients
+                    blk.sn_combiner.softmax_temperature = o["temp"] / 10 if o["temp"] != 10 else 1
+                    if o["fav"]:
+                        nb = len(branches)
+                        with torch.no_grad():
+                            vals = [0.6 if i + 1 == o["fav"] else (0.4 / max(nb - 1, 1)) * (1 - 0.1 * i) for i in range(nb)]
+                            blk.sn_combiner.alpha.copy_(torch.tensor(vals, dtype=blk.sn_combiner.alpha.dtype))
+                    self.layers[nm] = blk
+                    names.append(nm)
+                elif op == "conv":
+                    cout = cin if n["dw"] else n["out"]
+                    groups = cin if n["dw"] else n["grp"]
+                    k, d, s, pad, pm = n["k"], n["d"], n["s"], n["pad"], n["pm"]
+                    cls = nn.Conv1d if dim == 1 else nn.Conv2d
+                    if pad == "causal":
+                        if dim != 1:
+                            raise ValueError("causal padding is 1-D")
+                        self.layers[nm + "_pad"] = nn.ConstantPad1d(((k - 1) * d, 0), 0.0)
+                        names.append(nm + "_pad")
+                        conv = cls(cin, cout, k, stride=s, padding=0, dilation=d, groups=groups, bias=n["bias"])
+                    elif pad == "same":
+                        if s != 1:
+                            raise ValueError("padding='same' needs stride 1")
+                        conv = cls(cin, cout, k, stride=1, padding="same", dilation=d, groups=groups, bias=n["bias"],
+                                   padding_mode=pm)
+                    elif pad == "int":
+                        if k % 2 == 0:
+                            raise ValueError("explicit integer padding is generated for odd kernels")
+                        conv = cls(cin, cout, k, stride=s, padding=d * (k // 2), dilation=d, groups=groups,
+                                   bias=n["bias"], padding_mode=pm)
+                    else:
+                        conv = cls(cin, cout, k, stride=s, padding="valid" if dim == 1 else 0, dilation=d, groups=groups,
+                                   bias=n["bias"])
+                    if n["pl"]:
+                        from plinio.methods.pit.nn import PITConv1d, PITConv2d
+                        from plinio.methods.pit.nn.features_masker import PITFeaturesMasker
+                        from plinio.methods.pit.nn.timestep_masker import PITTimestepMasker
+                        from plinio.methods.pit.nn.dilation_masker import PITDilationMasker
+                        if dim == 1:
+                            conv = PITConv1d(conv, PITFeaturesMasker(cout), PITTimestepMasker(k), PITDilationMasker(k),
+                                             fold_bn=fold)
+                        else:
+                            conv = PITConv2d(conv, PITFeaturesMasker(cout), fold_bn=fold)
+                    self.layers[nm] = conv
+                    names.append(nm)
+                    if n["bn"]:
+                        self.layers[nm + "_bn"] = (nn.BatchNorm1d if dim == 1 else nn.BatchNorm2d)(
+                            cout, eps=EPS[n["eps"]], momentum=MOM[n["mom"]], affine=n["aff"], track_running_stats=n["trs"])
+                        names.append(nm + "_bn")
+                elif op in ("lin", "lin3"):
+                    fin = cin if op == "lin" else sh[n["ins"][0]]["sp"]
+                    lin = nn.Linear(fin, n["out"], bias=n["bias"])
+                    if n["pl"]:
+                        from plinio.methods.pit.nn import PITLinear
+                        from plinio.methods.pit.nn.features_masker import PITFeaturesMasker
+                        lin = PITLinear(lin, PITFeaturesMasker(n["out"]), fold_bn=fold)
+                    self.layers[nm] = lin
+                    names.append(nm)
+                    if n["bn"]:
+                        self.layers[nm + "_bn"] = nn.BatchNorm1d(n["out"], eps=EPS[n["eps"]], momentum=MOM[n["mom"]],
+                                                                 affine=n["aff"], track_running_stats=n["trs"])
+                        names.append(nm + "_bn")
+                elif op == "relu":
+                    self.layers[nm] = nn.ReLU()
+                    names.append(nm)
+                elif op == "drop":
+                    self.layers[nm] = nn.Dropout(0.3)
+                    names.append(nm)
+                elif op == "pool":
+                    avg = n["kind"] != "max"
+                    self.layers[nm] = ((nn.AvgPool1d if avg else nn.MaxPool1d) if dim == 1 else
+                                       (nn.AvgPool2d if avg else nn.MaxPool2d))(2)
+                    names.append(nm)
+                elif op == "flat":
+                    self.layers[nm] = nn.Flatten(1)
+                    names.append(nm)
+                elif op != "add":
+                    raise ValueError(op)
+                self.plan.append((op, names, list(n["ins"])))
+
+        def forward(self, x):
+            t = [x]
+            for op, names, ins in self.plan:
+                if op == "add":
+                    y = t[ins[0]] + t[ins[1]]
+                else:
+                    y = t[ins[0]]
+                    for nm in names:
+                        y = self.layers[nm](y)
+                t.append(y)
+            return t[-1]
+
     class TwoIn(nn.Module):
-        """Two-input forward around a GrammarNet body."""
+        """Two-input forward around an ImportNet body."""
 
         def __init__(self, body: nn.Module, how: str):
             super().__init__()
@@ -65,64 +264,45 @@ def _mk_classes():
                 return self.body(xa + xb)
             return self.body(torch.cat([xa, xb], dim=1))
 
-    return TwoIn
+    _CLS.update({"ImportNet": ImportNet, "TwoIn": TwoIn})
+    return _CLS
+
+
+def randomize(net, gen) -> None:
+    """Generic (non-degenerate) weights, biases and BN statistics: nothing is zero or one by accident."""
+    import torch
+    import torch.nn as nn
+    with torch.no_grad():
+        for m in net.modules():
+            if isinstance(m, (nn.Conv1d, nn.Conv2d, nn.Linear)):
+                m.weight.copy_((torch.rand(m.weight.shape, generator=gen, dtype=torch.float64) * 1.5 + 0.25) *
+                               (torch.randint(0, 2, m.weight.shape, generator=gen) * 2 - 1))
+                if m.bias is not None:
+                    m.bias.copy_(torch.rand(m.bias.shape, generator=gen, dtype=torch.float64) * 0.8 + 0.3)
+            elif isinstance(m, (nn.BatchNorm1d, nn.BatchNorm2d)):
+                if m.weight is not None:
+                    m.weight.copy_(torch.rand(m.weight.shape, generator=gen, dtype=torch.float64) * 1.0 + 0.5)
+                    m.bias.copy_(torch.rand(m.bias.shape, generator=gen, dtype=torch.float64) * 0.8 + 0.3)
+                if m.running_mean is not None:
+                    m.running_mean.copy_(torch.rand(m.running_mean.shape, generator=gen, dtype=torch.float64) - 0.5)
+                    m.running_var.copy_(torch.rand(m.running_var.shape, generator=gen, dtype=torch.float64) + 0.5)
 
 
 def build_user_model(arch: Dict[str, Any], fold: bool, seed: int):
     """The model object the USER would write (float64, generic weights).  Returns (model, inputs tuple)."""
     import torch
-    import torch.nn as nn
     arch = norm_iarch(arch)
     torch.set_default_dtype(torch.float64)
     gen = torch.Generator().manual_seed(seed)
-    body = GrammarNet(arch)
-    dim = arch["dim"]
-    sh = shapes(arch)
-    for idx, n in enumerate(arch["nodes"], start=1):
-        if n["op"] not in ("conv", "lin") or n["reuse"]:
-            continue
-        nm = lname(idx)
-        if n["bn"] and (nm + "_bn") in body.layers:
-            old = body.layers[nm + "_bn"]
-            body.layers[nm + "_bn"] = type(old)(old.num_features, eps=EPS[n["eps"]], momentum=MOM[n["mom"]])
-        if n["sn"]:
-            from plinio.methods.supernet.nn import SuperNetModule
-            base = body.layers[nm]
-            branches = []
-            for br in n["sn"]:
-                k = br["k"]
-                if dim == 1:
-                    c = nn.Conv1d(base.in_channels, base.out_channels, k, padding="same", bias=n["bias"])
-                else:
-                    c = nn.Conv2d(base.in_channels, base.out_channels, k, padding=k // 2, bias=n["bias"])
-                if br["bn"]:
-                    bn = (nn.BatchNorm1d if dim == 1 else nn.BatchNorm2d)(base.out_channels, eps=EPS[n["eps"]],
-                                                                            momentum=MOM[n["mom"]])
-                    branches.append(nn.Sequential(c, bn))
-                else:
-                    branches.append(c)
-            body.layers[nm] = SuperNetModule(branches)
-        elif n["pl"]:
-            from plinio.methods.pit.nn import PITConv1d, PITConv2d, PITLinear
-            from plinio.methods.pit.nn.features_masker import PITFeaturesMasker
-            from plinio.methods.pit.nn.timestep_masker import PITTimestepMasker
-            from plinio.methods.pit.nn.dilation_masker import PITDilationMasker
-            base = body.layers[nm]
-            if isinstance(base, nn.Conv1d):
-                k = base.kernel_size[0]
-                body.layers[nm] = PITConv1d(base, PITFeaturesMasker(base.out_channels), PITTimestepMasker(k),
-                                            PITDilationMasker(k), fold_bn=fold)
-            elif isinstance(base, nn.Conv2d):
-                body.layers[nm] = PITConv2d(base, PITFeaturesMasker(base.out_channels), fold_bn=fold)
-            else:
-                body.layers[nm] = PITLinear(base, PITFeaturesMasker(base.out_features), fold_bn=fold)
+    cl = _classes()
+    body = cl["ImportNet"](arch, fold)
     randomize(body, gen)
     shp = input_shape(arch)
     if arch["two"] == "no":
         model = body
         xs = (torch.rand((3,) + shp, generator=gen) * 2 - 0.5,)
     else:
-        model = _mk_classes()(body, arch["two"])
+        model = cl["TwoIn"](body, arch["two"])
         if arch["two"] == "add":
             xs = (torch.rand((3,) + shp, generator=gen) * 2 - 0.5, torch.rand((3,) + shp, generator=gen) - 0.3)
         else:
@@ -137,7 +317,7 @@ def body_prefix(arch) -> str:
 
 
 # ------------------------------------------------------------------------------------------ projection
-REC0 = {"t": "", "dim": 0, "i": 0, "o": 0, "k": 0, "d": 0, "s": 0, "g": 0, "b": False, "p": 0, "eps": 0, "mom": 0,
+REC0 = {"t": "", "dim": 0, "i": 0, "o": 0, "k": 0, "d": 0, "s": 0, "g": 0, "b": False, "p": 0, "pm": "", "eps": 0, "mom": 0,
         "aff": False, "trs": False, "pk": "", "l": 0, "r": 0, "ins": []}
 
 
@@ -158,7 +338,7 @@ def module_record(m) -> Dict[str, Any]:
         pc = 1000 if p == "same" else (0 if p == "valid" else _first(p))
         return _rec(t="conv", dim=1 if isinstance(m, nn.Conv1d) else 2, i=int(m.in_channels), o=int(m.out_channels),
                     k=_first(m.kernel_size), d=_first(m.dilation), s=_first(m.stride), g=int(m.groups),
-                    b=m.bias is not None, p=pc)
+                    b=m.bias is not None, p=pc, pm=str(m.padding_mode))
     if isinstance(m, nn.Linear):
         return _rec(t="lin", i=int(m.in_features), o=int(m.out_features), b=m.bias is not None)
     if isinstance(m, (nn.BatchNorm1d, nn.BatchNorm2d)):
@@ -167,8 +347,8 @@ def module_record(m) -> Dict[str, Any]:
                     trs=bool(m.track_running_stats))
     if isinstance(m, nn.ReLU):
         return _rec(t="relu")
-    if isinstance(m, nn.Identity):
-        return _rec(t="id")
+    if isinstance(m, nn.Dropout):
+        return _rec(t="drop")
     if isinstance(m, (nn.AvgPool1d, nn.AvgPool2d, nn.MaxPool1d, nn.MaxPool2d)):
         return _rec(t="pool", pk="avg" if isinstance(m, (nn.AvgPool1d, nn.AvgPool2d)) else "max",
                     k=_first(m.kernel_size), dim=1 if isinstance(m, (nn.AvgPool1d, nn.MaxPool1d)) else 2)
@@ -181,12 +361,18 @@ def module_record(m) -> Dict[str, Any]:
     return _rec(t="other", pk=type(m).__name__[:40])
 
 
-def project_graph(gm) -> List[Dict[str, Any]]:
-    """fx GraphModule -> sequence of layer records in graph order; `ins` = 1-based positions of the producers.
-    Dead nodes (no users, not the output) are reported too (t prefixed by 'dead:')."""
+def project_graph(gm):
+    """fx GraphModule -> (sequence of layer records of the LIVE graph in graph order, `ins` = 1-based positions of the
+    producers;  number of dead nodes: nodes no path leads from to the output - not part of the architecture)."""
     import torch
+    nodes = list(gm.graph.nodes)
+    live = set()
+    for n in reversed(nodes):
+        if n.op == "output" or any(u in live for u in n.users):
+            live.add(n)
     pos: Dict[Any, int] = {}
     out: List[Dict[str, Any]] = []
+    dead = 0
 
     def flat_inputs(args) -> List[Any]:
         res = []
@@ -196,8 +382,11 @@ def project_graph(gm) -> List[Dict[str, Any]]:
             elif hasattr(a, "op") and hasattr(a, "target"):
                 res.append(a)
         return res
-    for n in gm.graph.nodes:
+    for n in nodes:
         if n.op == "output":
+            continue
+        if n not in live and n.op != "placeholder":
+            dead += 1
             continue
         if n.op == "placeholder":
             r = _rec(t="in")
@@ -214,11 +403,9 @@ def project_graph(gm) -> List[Dict[str, Any]]:
         else:
             r = _rec(t="other", pk=(n.op + ":" + str(n.target))[:40])
         r["ins"] = [pos[a] for a in flat_inputs(n.args) if a in pos]
-        if len(n.users) == 0:
-            r["t"] = "dead:" + r["t"]
         out.append(r)
         pos[n] = len(out)
-    return out
+    return out, dead
 
 
 def trace_plain(model):
@@ -239,7 +426,6 @@ def trace_plain(model):
 
 # ------------------------------------------------------------------------------------------ observation helpers
 def _rel(y, y0) -> int:
-    import torch
     if tuple(y.shape) != tuple(y0.shape):
         return CAP
     d = float((y.detach() - y0.detach()).abs().max())
@@ -265,35 +451,99 @@ def _err(e: Exception) -> str:
     return f"{type(e).__name__}: {str(e)[:120]}"
 
 
+def _errkind(e: Exception) -> str:
+    """Documented rejections of plinio, recognised by their message."""
+    s = str(e)
+    if "track_running_stats" in s:
+        return "trs"
+    if "DepthWise" in s or "groupwise" in s:
+        return "groups"
+    return "other"
+
+
+def _simple(v):
+    if v is None or isinstance(v, (bool, int, float, str)):
+        return ("v", v)
+    if isinstance(v, (tuple, list)) and all(x is None or isinstance(x, (bool, int, float, str)) for x in v):
+        return ("v", tuple(v))
+    if callable(v) and hasattr(v, "__name__") and not hasattr(v, "parameters"):
+        return ("fn", v.__name__)
+    return None
+
+
+def attr_snapshot(model) -> Dict[str, Any]:
+    """Every user-visible simple attribute (numbers, flags, strings, tuples of them, selected methods) of every module of
+    the user's model; parameters / buffers are covered by the state_dict comparison, `training` by the mode clauses."""
+    snap = {}
+    for name, m in model.named_modules():
+        for k, v in vars(m).items():
+            if k == "training":
+                continue
+            s = _simple(v)
+            if s is not None:
+                snap[f"{name}.{k}"] = s
+    return snap
+
+
+def sn_options(model, arch) -> List[Dict[str, Any]]:
+    """Per SuperNet block (node order): the options as read from the USER's combiner object."""
+    out = []
+    pre = body_prefix(arch)
+    for idx, n in enumerate(arch["nodes"], start=1):
+        if n["op"] == "conv" and n["sn"]:
+            c = model.get_submodule(pre + "layers." + lname(idx)).sn_combiner
+            a = c.alpha.detach()
+            fav = 0 if float((a - a[0]).abs().max()) == 0.0 else int(a.argmax()) + 1
+            out.append({"n": idx, "hard": bool(c.hard_softmax), "gum": getattr(c.sample_alpha, "__name__", "") == "sample_alpha_gs",
+                        "temp": int(round(float(c.softmax_temperature) * 10)), "fav": fav})
+    return out
+
+
+def _flags(w) -> Dict[str, bool]:
+    return {"w": bool(w.training), "s": bool(w.seed.training),
+            "kids": all(m.training == w.training for m in w.modules())}
+
+
 def run(sc: Dict[str, Any]) -> Dict[str, Any]:
     import torch
     import torch.nn as nn
     arch = norm_iarch(sc["arch"])
     method, mode, fold, auto = sc["method"], sc["mode"], bool(sc.get("fold", False)), bool(sc.get("auto", True))
-    tr: Dict[str, Any] = {"arch": arch, "method": method, "mode": mode, "fold": fold, "auto": auto,
-                          "conv_ok": False, "err": "", "O": [], "E": [], "masks": [],
+    hist = list(sc.get("hist", []))
+    tr: Dict[str, Any] = {"arch": arch, "method": method, "mode": mode, "fold": fold, "auto": auto, "hist": hist,
+                          "conv_ok": False, "err": "", "errk": "", "O": [], "N": [], "E": [], "masks": [],
+                          "snopt0": [], "snopt1": [],
                           "u0": mode == "train", "w1": False, "s1": False, "u1": False, "kids": True,
-                          "dw": -1, "du": -1, "sd_keys": True, "sd_vals": True, "uflag_restored": True,
-                          "sm": [], "exp_ok": False, "exp_err": "", "de": -1, "de_checked": False,
-                          "w2": False, "s2": False, "sn_alpha_uniform": True}
+                          "dw": -1, "du": -1, "sd_keys": True, "sd_vals": True, "attrs_changed": [], "attrs_changed_pl": 0, "attrs_added": 0,
+                          "H": [], "dwh": -1, "sd_vals_end": True,
+                          "exp_ok": False, "exp_err": "", "de": -1, "de_checked": False, "dead": 0,
+                          "w2": False, "s2": False}
     model, xs = build_user_model(arch, fold, int(sc.get("seed", 0)))
     model.train(mode == "train")
     ref = copy.deepcopy(model).eval()
     with torch.no_grad():
-        y0 = ref(*xs)
-    tr["O"] = project_graph(trace_plain(ref))
+        y0 = ref(*xs)                      # recorded BEFORE the conversion, on an independent copy
+    tr["O"], _ = project_graph(trace_plain(ref))
     sd0 = copy.deepcopy(model.state_dict())
+    at0 = attr_snapshot(model)
+    # modules of the user's model that are (or live inside) PIT layers the user placed: search objects the wrapper is meant to
+    # configure (discrete_cost, trainability, fused BatchNorm); their attributes are recorded, not decided
+    plmods = tuple(n_ + "." for n_, m_ in model.named_modules() if type(m_).__name__ in ("PITConv1d", "PITConv2d", "PITLinear"))
+    tr["snopt0"] = sn_options(model, arch)
     tr["u0"] = bool(model.training)
     ex = xs[0] if len(xs) == 1 else tuple(xs)
     pre = body_prefix(arch)
     excl = [pre + "layers." + lname(i) for i, n in enumerate(arch["nodes"], start=1)
-            if n["op"] in ("conv", "lin") and n["excl"] and not n["reuse"]]
+            if n["op"] in LAYER_OPS and n["excl"] and not n["reuse"]]
     try:
         with warnings.catch_warnings():
             warnings.simplefilter("ignore")
             if method == "PIT":
                 from plinio.methods import PIT
-                if len(xs) == 1 and int(sc.get("seed", 0)) % 2 == 0:     # both ways of describing the input are used
+                # both ways of describing the input are used (input_shape makes plinio trace with a batch of ONE sample, which
+                # a BatchNorm without running statistics cannot process: those networks are described by an example batch)
+                batch1_ok = all(n["trs"] or not n["bn"] for n in arch["nodes"])
+                if len(xs) == 1 and int(sc.get("seed", 0)) % 2 == 0 and batch1_ok:
                     w = PIT(model, input_shape=tuple(xs[0].shape[1:]), fold_bn=fold, autoconvert_layers=auto,
                             exclude_names=excl)
                 else:
@@ -307,10 +557,17 @@ def run(sc: Dict[str, Any]) -> Dict[str, Any]:
         tr["conv_ok"] = True
     except Exception as e:
         tr["err"] = _err(e)
+        tr["errk"] = _errkind(e)
         return tr
     # ---- mode flags right after conversion
     tr["w1"], tr["s1"], tr["u1"] = bool(w.training), bool(w.seed.training), bool(model.training)
     tr["kids"] = all(m.training == w.seed.training for m in w.seed.modules())
+    # ---- the converted graph (attributes of the searchable layers are read off the layer objects)
+    if method in ("PIT", "SN"):
+        try:
+            tr["N"], _ = project_graph(w.seed)
+        except Exception as e:
+            tr["N"] = []
     # ---- masks (PIT): every searchable layer fully open
     if method == "PIT":
         from plinio.methods.pit.nn import PITModule
@@ -327,13 +584,7 @@ def run(sc: Dict[str, Any]) -> Dict[str, Any]:
                 except Exception:
                     rec["ok"] = False
                 tr["masks"].append(rec)
-    if method == "SN":
-        for m in w.seed.modules():
-            if type(m).__name__ == "SuperNetCombiner":
-                a = m.alpha.detach()
-                if float((a - a[0]).abs().max()) != 0.0:
-                    tr["sn_alpha_uniform"] = False
-    # ---- wrapped vs original, eval mode (PIT, SuperNet)
+    # ---- wrapped vs original (recorded before), eval mode (PIT, SuperNet)
     if method in ("PIT", "SN"):
         w.eval()
         try:
@@ -344,29 +595,72 @@ def run(sc: Dict[str, Any]) -> Dict[str, Any]:
             tr["err"] = "forward of the wrapped model: " + _err(e)
         w.train(tr["w1"])
         w.seed.train(tr["s1"])
-    # ---- the caller's object
+    # ---- the caller's object: parameters / buffers, simple attributes, options of SuperNet blocks, eval outputs
     same = _sd_same(sd0, model.state_dict())
     tr["sd_keys"], tr["sd_vals"] = same["keys"], same["vals"]
-    uflag = model.training
+    at1 = attr_snapshot(model)
+    chg = sorted(k for k in at0 if k in at1 and at0[k] != at1[k]) + sorted("-" + k for k in at0 if k not in at1)
+    tr["attrs_changed"] = [k for k in chg if not k.lstrip("-").startswith(plmods)][:8] if plmods else chg[:8]
+    tr["attrs_changed_pl"] = len(chg) - len([k for k in chg if not (plmods and k.lstrip("-").startswith(plmods))])
+    tr["attrs_added"] = len([k for k in at1 if k not in at0])
+    tr["snopt1"] = sn_options(model, arch)
+    uflags = {n_: m.training for n_, m in model.named_modules()}
     try:
         with torch.no_grad():
             tr["du"] = _rel(model.eval()(*xs), y0)
     except Exception as e:
         tr["du"] = CAP
-    model.train(uflag)
-    # ---- SetMode: flip the wrapper's mode and back (export must not depend on it)
-    for b in (not tr["w1"], tr["w1"], mode != "train"):
-        w.train(b)
-        tr["sm"].append({"set": bool(b), "w": bool(w.training), "s": bool(w.seed.training),
-                         "kids": all(m.training == b for m in w.seed.modules())})
-    # ---- export immediately
+    for n_, m in model.named_modules():
+        m.training = uflags[n_]
+    w.train(tr["w1"])
+    w.seed.train(tr["s1"])
+    # ---- the mode history the user performs between import and the final observation
+    for a in hist:
+        st = {"a": a, "ok": True, "err": ""}
+        try:
+            with warnings.catch_warnings():
+                warnings.simplefilter("ignore")
+                if a == "train":
+                    w.train()
+                elif a == "eval":
+                    w.eval()
+                elif a == "export":
+                    w.export()
+                elif a == "summary":
+                    w.summary()
+                elif a == "cost":
+                    float(w.cost)
+                elif a == "forward":
+                    if w.training:
+                        raise tlc.MachineryError("history: forward is only performed in eval mode (a training-mode forward "
+                                                 "updates BatchNorm statistics by design)")
+                    with torch.no_grad():
+                        w(*xs)
+                else:
+                    raise tlc.MachineryError("unknown history action " + a)
+        except tlc.MachineryError:
+            raise
+        except Exception as e:
+            st["ok"], st["err"] = False, _err(e)
+        st.update(_flags(w))
+        tr["H"].append(st)
+    # after ANY history: if the user's last word was eval(), the wrapper - as it is, no further eval() call - still computes
+    # the original function; and the object passed in still has its parameters
+    if method in ("PIT", "SN") and not w.training:
+        try:
+            with torch.no_grad():
+                tr["dwh"] = _rel(w(*xs), y0)
+        except Exception as e:
+            tr["dwh"] = CAP
+    tr["sd_vals_end"] = _sd_same(sd0, model.state_dict())["vals"]
+    # ---- export
     if method in ("PIT", "SN"):
         try:
             with warnings.catch_warnings():
                 warnings.simplefilter("ignore")
                 e = w.export()
             tr["exp_ok"] = True
-            tr["E"] = project_graph(e)
+            tr["E"], tr["dead"] = project_graph(e)
             tr["w2"], tr["s2"] = bool(w.training), bool(w.seed.training)
             # numeric side observation (prediction only): if no BatchNorm had to be re-created, the export computes
             # the original function (re-created BatchNorms are fresh by design, so nothing is compared then)
